@@ -10,7 +10,8 @@ specification by the SAME tactic line that GenProofs.v uses for today's script
 the text of a script: a future harmless rewrite in go-zero would then alarm.
 
 usage: python3 translate/neutraltest.py [file.lua ...]        (needs coq/theories/C03,C19/GenProofs.vo built)
-Not part of the quick check (about 80 s of Coq); the thorough tier of C03 runs it.
+An instrument like tools/anchorcov.py, not part of ./check (about 90 s of Coq): run it after touching Lib/LuaExec.v,
+the GenProofs.v files or the translator.
 """
 import glob
 import os
